@@ -250,6 +250,9 @@ def check(col: Collector, tier: str):
     from sa.props._tr import check_escaper_ranges
     check_escaper_ranges(col, "C03.R10", repo)
     # the backend's default method types (bool, float, int returns) must survive every reset of a re-used executor
+    import_obligations(col, "C03.R10", "c13", lambda o: o.detail in ("int<float<double",) or o.detail.startswith("typed-by-kind-not-by-value") or
+                       o.detail in ("int-typed-int", "float-typed-double"),
+                       "a column's element type is the type computed for its expression: the arithmetic type table and the typing of constants decide it")
     import_obligations(col, "C03.R10", "c07", lambda o: o.rule == "C07.R3b",
                        "a default-typed method that lost its type after a reset is booked as a double column")
     # ------------------------------------------------------------ R8 conditional is double
